@@ -79,8 +79,9 @@ def direction_table(ctx, v, compute_rx, roles, rule, amount_arg=None, amount_rol
                 if o.kind == "call" and re.search(CLONE, o.a):
                     bb = int(o.b.rsplit(":bb", 1)[1])
                     site_role[bb] = role
-    # guards: AssetInfo::equal(x, &pools[i].info)
-    guards = []
+    # atoms: AssetInfo::equal(x, &pools[i].info) call sites; every branch that tests the result of one call site (directly,
+    # through a bool binding, negated, in a guard and again in an if) is decided consistently
+    atoms = {}
     for b, c, _ in switch_conds(v):
         if c.kind == "call" and c.callee.endswith("asset::AssetInfo::equal"):
             a0 = v.origins_of_operand(c.term["args"][0], at=v.at_term(c.block))
@@ -88,35 +89,51 @@ def direction_table(ctx, v, compute_rx, roles, rule, amount_arg=None, amount_rol
             for o in a0:
                 if o.kind == "param":
                     who = (amount_role if o.a in amount_params else other_role) + "_asset"
-            idx = index_of_site(v, c.block, c.term, 1)
-            te, fe = cmp_true_false_edges(v, b, c)
-            guards.append((b, who, idx, fe if c.neg else te))
-    # configurations: the maximal sets of guard true-edges that jointly dominate some block (the leaves of the if-ladder)
-    allb = set(v.live_blocks())
-    gdom = {}
-    for k, (gb, who, gi, te) in enumerate(guards):
-        if te:
-            gdom[k] = {x for x in allb if v.edge_dominated(x, te)}
-    per_block = {}
-    for x in allb:
-        ks = frozenset(k for k, d in gdom.items() if x in d)
-        if ks:
-            per_block.setdefault(ks, set()).add(x)
-    leaves = [ks for ks in per_block if not any(ks < other for other in per_block)]
+            atoms[c.block] = (who, index_of_site(v, c.block, c.term, 1))
+    whos = sorted({w for w, _ in atoms.values() if w})
+    idxs = {w: sorted({i for ww, i in atoms.values() if ww == w and i is not None}) for w in whos}
+    import itertools
+    from ..dataflow import region_walk
     table = {}
-    for ks in sorted(leaves, key=sorted):
-        key = tuple(sorted((guards[k][1], guards[k][2]) for k in ks))
-        # provenance of each role argument with the definitions made under the other branches ignored
-        others = set().union(*[d for k, d in gdom.items() if k not in ks])
-        with v.restricted(set(range(v.n)) - others):
+    reaches = {}
+    v._direction_reach = reaches
+    combos = [dict(zip(whos, c)) for c in itertools.product(*[idxs[w] for w in whos])]
+    for asg in combos:
+        if len(set(asg.values())) != len(asg):
+            continue      # two different assets cannot both be the same pool
+
+        def decide(b, c, asg=asg):
+            if c.kind != "call" or c.block not in atoms:
+                return None
+            w, i = atoms[c.block]
+            if w is None or i is None:
+                return None
+            return (asg.get(w) == i) != bool(c.neg)
+        reach = region_walk(v, decide)
+        key = tuple(sorted(asg.items()))
+        reaches[key] = reach
+        if cb not in reach:
+            table[key] = {r: None for r in roles}
+            continue
+        # provenance of each role argument in this configuration: definitions in blocks it cannot execute are ignored
+        with v.restricted(reach):
             with v.opaque(CLONE):
                 for role, argi in roles.items():
-                    idxs = set()
+                    found = set()
                     for o in v.origins_of_operand(ct["args"][argi], at=v.at_term(cb)):
                         if o.kind == "call" and re.search(CLONE, o.a):
                             sb = int(o.b.rsplit(":bb", 1)[1])
-                            idxs.add(index_of_site(v, sb, v.blocks[sb]["t"], 0))
-                    table.setdefault(key, {})[role] = next(iter(idxs)) if len(idxs) == 1 else None
+                            found.add(index_of_site(v, sb, v.blocks[sb]["t"], 0))
+                    table.setdefault(key, {})[role] = next(iter(found)) if len(found) == 1 else None
+    # an asset that is none of the pools gets no quote
+
+    def decide_none(b, c):
+        if c.kind != "call" or c.block not in atoms:
+            return None
+        return bool(c.neg)
+    if atoms:
+        ctx.ob(rule, "%s|no-direction-no-pricing" % v.path, cb not in region_walk(v, decide_none),
+               "with the traded asset equal to none of the pools the pricing call is unreachable: %s" % (cb not in region_walk(v, decide_none)), v.where(cb))
     return table
 
 
@@ -190,23 +207,15 @@ def check_pair_directions(ctx, model, rule="C14-S3"):
         cs = v.calls_to(rx)
         if cs and len(cs[0][1]["args"]) >= 7:
             cb, ct = cs[0]
-            guards = []
-            for b, c, _ in switch_conds(v):
-                if c.kind == "call" and c.callee.endswith("asset::AssetInfo::equal"):
-                    te, fe = cmp_true_false_edges(v, b, c)
-                    guards.append((index_of_site(v, c.block, c.term, 1), fe if c.neg else te))
             bad = []
             n = 0
-            allb = set(v.live_blocks())
-            dom_of = {}
-            for gi, te in guards:
-                if te and gi is not None:
-                    dom_of[gi] = {x for x in allb if v.edge_dominated(x, te)}
-            for jdx, mine in sorted(dom_of.items()):
-                # provenance of the two decimals arguments in the configuration `offer == pools[jdx]`: definitions made under
-                # another direction's branch are ignored
-                others = set().union(*[d for g, d in dom_of.items() if g != jdx]) if len(dom_of) > 1 else set()
-                with v.restricted(set(range(v.n)) - others):
+            for key, reach in sorted(getattr(v, "_direction_reach", {}).items()):
+                jdx = dict(key).get("offer_asset")
+                if jdx is None or cb not in reach:
+                    continue
+                jdx = int(jdx)
+                # provenance of the two decimals arguments in the configuration `offer == pools[jdx]`
+                with v.restricted(reach):
                     for argi, role in ((5, "offer"), (6, "ask")):
                         os_ = v.origins_of_operand(ct["args"][argi], at=v.at_term(cb))
                         ks = set()
